@@ -1,5 +1,6 @@
 import HioModel.Text
 import HioModel.Gen.HttpConsts
+import HioModel.Req.Model
 /-!
 # Model of `hio.core.http.clienting.Client`: request queue, `waited`, `latest`, response
 queue, redirect history — against a scripted world of servers
@@ -14,6 +15,11 @@ One `cycle` = one `Client.service()` call: `serviceRequests` (pop + transmit whe
 `waited`), then `serviceResponse` (when `waited`: error entry if the connection is dead, else
 if the response is complete: redirect or append an entry).
 
+The request target on the wire is `targetOf path qargs`; a followed redirect is re-sent to the Location's path and the
+Location's query arguments ONLY (the previous arguments are dropped), with the same method and an empty body.
+Responses to HEAD and with status 1xx / 204 / 304 are bodiless whatever Content-Length they carry (`bodiless`);
+kept defect C19-K2: such a response announcing `Transfer-Encoding: chunked` is waited for forever.
+Not modelled (never generated): a redirected HEAD (the hop's response is parsed as if the method were GET).
 Known finding kept in the model (C19-K1): a response cut short by the server closing
 (`framing = 3`) is never completed — `outcome = stuck`, `waited` stays true.
 The https→http refusal and a 3xx response without `Location` (tree after HttpParse's fix of F48/F49): `redirect()` raises,
@@ -27,6 +33,7 @@ structure Loc where
   secure : Bool
   port : Nat
   path : Bytes
+  query : List (Bytes × Bytes)    -- the Location's query string, as arguments
 deriving Repr, DecidableEq
 
 structure Resp where
@@ -41,7 +48,16 @@ structure Req where
   method : Bytes
   path : Bytes
   body : Bytes
+  qargs : List (Bytes × Bytes)
 deriving Repr, DecidableEq
+
+/-- the request target `Requester.build` writes for a path and a query-argument dict -/
+def targetOf (path : Bytes) (qargs : List (Bytes × Bytes)) : Bytes :=
+  Req.quote path ++ (if (Req.packQs qargs).isEmpty then [] else 63 :: Req.packQs qargs)
+
+/-- responses that end at the blank line whatever their header fields say (RFC 7230 3.3.3): to HEAD, 1xx, 204, 304 -/
+def bodiless (method : Bytes) (status : Nat) : Bool :=
+  method == lit "HEAD" || status == 204 || status == 304 || (100 ≤ status && status < 200)
 
 structure Server where
   port : Nat
@@ -63,6 +79,7 @@ structure Entry where
   method : Bytes
   path : Bytes
   rbody : Bytes
+  rqargs : List (Bytes × Bytes)
   redirects : List Hop
 deriving Repr, DecidableEq
 
@@ -70,7 +87,7 @@ structure Sent where
   port : Nat
   tls : Bool
   method : Bytes
-  path : Bytes
+  path : Bytes                  -- the request target as written on the wire (quoted path, `?`, packed query)
   body : Bytes
 deriving Repr, DecidableEq
 
@@ -116,7 +133,7 @@ def transmit (servers : List Server) (s : St) (r : Req) : St :=
                pending := some (sc.getD (usedOf s.port s.used) defaultResp),
                used := bump s.port s.used,
                -- `Requester.build`: no body is sent with GET
-               wire := s.wire ++ [⟨s.port, s.secure, r.method, r.path, if r.method == lit "GET" then [] else r.body⟩],
+               wire := s.wire ++ [⟨s.port, s.secure, r.method, targetOf r.path r.qargs, if r.method == lit "GET" then [] else r.body⟩],
                inflight := s.inflight + 1, peak := max s.peak (s.inflight + 1) }
     | none => { s with waited := true, cur := r, pending := none }
   else { s with waited := true, cur := r, pending := none }
@@ -135,7 +152,7 @@ def snapshotTag (s : St) : Option Nat := s.latest
 
 /-- append the finished response (normal or errored) to `.responses` -/
 def finish (s : St) (status : Option Nat) (body : Bytes) (errored : Bool) : St :=
-  { s with entries := s.entries ++ [⟨status, body, errored, s.latest, s.cur.method, s.cur.path, s.cur.body, s.redirects⟩],
+  { s with entries := s.entries ++ [⟨status, body, errored, s.latest, s.cur.method, s.cur.path, s.cur.body, s.cur.qargs, s.redirects⟩],
            redirects := [], latest := none, waited := false, pending := none }
 
 /-- `serviceResponse` once the response in process is completely available -/
@@ -158,8 +175,8 @@ def handle (servers : List Server) (s : St) (rp : Resp) : St :=
         if s1.secure && !l.secure then refuse
         else
           let s2 := { s1 with port := l.port, secure := l.secure, alive := (scriptOf servers l.port).isSome }
-          transmit servers s2 ⟨s2.cur.method, l.path, []⟩
-      else transmit servers s1 ⟨s1.cur.method, l.path, []⟩
+          transmit servers s2 ⟨s2.cur.method, l.path, [], l.query⟩
+      else transmit servers s1 ⟨s1.cur.method, l.path, [], l.query⟩
   else finish s0 (some rp.status) rp.body false
 
 /-- `serviceResponse` -/
@@ -169,6 +186,16 @@ def serviceResponse (servers : List Server) (arrived : Bool) (s : St) : St :=
   | none => finish s none [] true                          -- F51 fix: PrematureClosure → errored entry
   | some rp =>
     if !arrived then s
+    else if bodiless s.cur.method rp.status then
+      -- the response ends at the blank line; Content-Length is ignored — but `parseBody` looks at `.chunked` first, so a
+      -- bodiless response that announces chunked coding is waited for forever (C19-K2)
+      -- — unless the server closes, which ends the wait with PrematureClosure (errored entry)
+      if rp.framing == 1 then
+        if rp.close then
+          if isRedirect rp.status then handle servers s { rp with body := [] }
+          else finish { s with inflight := s.inflight - 1, pending := none, alive := false } none [] true
+        else { s with outcome := .stuck }
+      else handle servers s { rp with body := [] }
     else if rp.framing == 3 then
       -- server closed before the declared length was delivered: with nothing left unparsed the parser raises
       -- PrematureClosure (errored entry); with partial body bytes left it waits forever (C19-K1)
@@ -190,7 +217,7 @@ def run (servers : List Server) : List Bool → St → St
   | a :: as, s => run servers as (cycle servers a s)
 
 def init (secure : Bool) (port : Nat) (servers : List Server) (reqs : List Req) : St :=
-  { queue := (List.range reqs.length).zip reqs, waited := false, latest := none, cur := ⟨lit "GET", lit "/", []⟩,
+  { queue := (List.range reqs.length).zip reqs, waited := false, latest := none, cur := ⟨lit "GET", lit "/", [], []⟩,
     secure := secure, port := port, alive := (scriptOf servers port).isSome, pending := none, used := [],
     redirects := [], entries := [], wire := [], inflight := 0, peak := 0, outcome := .running }
 
